@@ -118,15 +118,16 @@ func (w *c13World) run() {
 	rtBias := 1 + tp.Intn(4)
 	maintBias := tp.Intn(3)
 	abortW := 1 + tp.Intn(6)
+	personBias := tp.Intn(3)
 	if tp.Intn(4) == 0 {
 		// an outgoing hash-slot migration is configured: every command on that hash
 		// slot is also staged into the migration outbox
 		w.outgoing = map[uint16]multiraft.SlotID{w.owned[0]: 20}
 	}
-	r.Config = map[string]any{"outgoing": len(w.outgoing) > 0, "abort_w": abortW,"slot": w.slot, "legacy": w.legacy, "owned": fmt.Sprint(w.owned), "cmds": nCmds, "nofaults": noFaults, "max_batch": maxBatch,
+	r.Config = map[string]any{"outgoing": len(w.outgoing) > 0, "abort_w": abortW, "person_bias": personBias,"slot": w.slot, "legacy": w.legacy, "owned": fmt.Sprint(w.owned), "cmds": nCmds, "nofaults": noFaults, "max_batch": maxBatch,
 		"memtable": w.memTable, "malformed_bias": malformedBias, "unowned_bias": unownedBias, "mig_bias": migBias, "rt_bias": rtBias, "maint_bias": maintBias}
 
-	w.misc = &miscGen{tp: tp, slot: w.slot, owned: w.owned, foreign: w.foreign}
+	w.misc = &miscGen{tp: tp, slot: w.slot, owned: w.owned, foreign: w.foreign, personBias: personBias}
 	for i, id := range []string{"chA", "chB"} {
 		w.chans = append(w.chans, chanRef{id: id, typ: 2, hs: w.owned[i%len(w.owned)]})
 	}
